@@ -136,6 +136,14 @@ Theorem C05_default_not_verbatim_refuted : exists p,
 Proof. exact default_not_verbatim_refuted. Qed.
 Print Assumptions C05_default_not_verbatim_refuted.
 
+Theorem C05_raw_fallback_site_refuted :
+  slot_guard (mk CIdent SSanitize "Schema.properties.key@collide" "models/*.py") (s2l "user-id") = false /\
+  site_finding (mk CIdent SSanitize "Schema.properties.key@collide" "models/*.py") (s2l "user-id") = "raw_fallback"%string /\
+  slot_guard (mk CIdent SSanitize "Schema.properties.key@collide" "models/*.py") (s2l "userId;#()=""'") = true /\
+  image SSanitize (s2l "userId;#()=""'") = s2l "userId".
+Proof. exact raw_fallback_site_refuted. Qed.
+Print Assumptions C05_raw_fallback_site_refuted.
+
 Theorem C05_nul_char_refuted :
   slot_guard (mk CDoc SEsc "Operation.description" "api/*/*.py") [97; 0] = false /\
   slot_guard (mk CDQ SEsc "Schema.properties.key@model" "models/*.py") [97; 0] = false.
